@@ -230,6 +230,28 @@ pub fn full_lef() -> LefLibrary {
     lib.extensions.push(LefExtension { name: "\"tag\"".into(), data: "CREATOR x ; ".into() });
     lib
 }
+/// Every integer leaf of the serde form of the full GDSII library (coordinates, layers, data types, dates, flags,
+/// plex, property attributes, columns / rows ...), as JSON pointer paths.
+fn gds_int_leaves() -> Vec<String> {
+    fn walk(v: &Value, path: String, out: &mut Vec<String>) {
+        match v {
+            Value::Number(n) if n.is_i64() || n.is_u64() => out.push(path),
+            Value::Array(a) => a.iter().enumerate().for_each(|(i, x)| walk(x, format!("{path}/{i}"), out)),
+            Value::Object(o) => o.iter().for_each(|(k, x)| walk(x, format!("{path}/{k}"), out)),
+            _ => {}
+        }
+    }
+    let mut out = vec![];
+    walk(&serde_json::to_value(full_gds()).expect("MACHINERY: full_gds to_value"), String::new(), &mut out);
+    out
+}
+const INT_VALUES: [i64; 16] = [0, 1, -1, 255, 256, 32767, -32768, 65535, 16777216, 16777217, -16777217, 123456789, 1 << 30, 2147483646, 2147483647, -2147483648];
+/// the full library with one integer leaf replaced (None: the value does not fit the field's type)
+fn gds_with_int(path: &str, x: i64) -> Option<GdsLibrary> {
+    let mut v = serde_json::to_value(full_gds()).ok()?;
+    *v.pointer_mut(path)? = json!(x);
+    serde_json::from_value::<GdsLibrary>(v).ok()
+}
 pub const LEF_STRING_SITES: usize = 10;
 pub const LEF_DECIMAL_SITES: usize = 8;
 fn set_lef_decimal(lib: &mut LefLibrary, site: usize, d: LefDecimal) {
@@ -396,6 +418,103 @@ impl C18 {
         }
     }
 
+    /// `lib` was loaded from the JSON form of the full library with the integer `x` at `path`: the loaded value must
+    /// hold exactly `x` there (seen through its own serde form), and must survive every round trip
+    fn check_int(&self, lib: &GdsLibrary, k: usize, path: &str, x: i64, cx: &mut Cx) {
+        let key = format!("i:{k}:{x}");
+        cx.stats.evaluations += 1;
+        let got = serde_json::to_value(lib).ok().and_then(|v| v.pointer(path).cloned());
+        if got != Some(json!(x)) {
+            cx.outcome("roundtrip-differs");
+            cx.fail(&key, "gds-integer-changed-on-load", None, || format!("the JSON form of the full library with {x} at {path} loads to a library holding {got:?} there"), || Value::Null);
+            return;
+        }
+        self.check_gds(lib, &key, &format!("integer {x} at {path}"), |_, _| None, cx);
+    }
+
+    /// save(A); save(B); open => B, on one path, for B of the same / a smaller / a larger markup length than A
+    fn save_sequences(&self, cx: &mut Cx) {
+        let base = full_gds();
+        let variants: Vec<(&str, GdsLibrary, GdsLibrary)> = {
+            let mut v = vec![];
+            // same length: a layer number 11 -> 17, a string "txt" -> "txu", a coordinate 10 -> 90
+            let (mut a, mut b) = (base.clone(), base.clone());
+            if let GdsElement::GdsBoundary(e) = &mut b.structs[0].elems[0] {
+                e.layer = 17;
+            }
+            v.push(("same-length-layer", a.clone(), b.clone()));
+            b = base.clone();
+            set_gds_string(&mut b, 0, "lic");
+            set_gds_string(&mut a, 0, "lib");
+            v.push(("same-length-string", a.clone(), b.clone()));
+            // shorter and longer second text
+            let mut long = base.clone();
+            set_gds_string(&mut long, 0, &"x".repeat(300));
+            v.push(("second-shorter", long.clone(), base.clone()));
+            v.push(("second-longer", base.clone(), long));
+            v
+        };
+        for (name, a, b) in &variants {
+            for (fname, fmt) in FMTS {
+                cx.stats.executions += 1;
+                cx.stats.evaluations += 1;
+                let f = cx.scratch_file(&format!("c18-seq-{name}.{fname}"));
+                let _ = std::fs::remove_file(&f);
+                let r = guard(|| -> Result<GdsLibrary, String> {
+                    SerdeFile::save(a, &f, fmt).map_err(|e| format!("save A: {e}"))?;
+                    SerdeFile::save(b, &f, fmt).map_err(|e| format!("save B: {e}"))?;
+                    <GdsLibrary as SerdeFile>::open(&f, fmt).map_err(|e| format!("open: {e}"))
+                });
+                let _ = std::fs::remove_file(&f);
+                let key = format!("q:gds:{name}:{fname}");
+                match r {
+                    Err(p) => cx.fail(&key, "save-sequence-panic", None, || p.short(), || Value::Null),
+                    Ok(Err(e)) => cx.fail(&key, "save-sequence-error", None, || format!("GDSII {name}/{fname}: {e}"), || Value::Null),
+                    Ok(Ok(back)) => {
+                        if back != *b {
+                            cx.fail(&key, "save-sequence-stale", None, || format!("GDSII {name}/{fname}: after save(A), save(B) to one path, open returns {}", if back == *a { "A" } else { "neither A nor B" }), || Value::Null);
+                        } else {
+                            cx.outcome("identical");
+                        }
+                    }
+                }
+            }
+        }
+        // LEF: a macro name of the same length, a shorter and a longer library
+        let lbase = full_lef();
+        let mut lb = lbase.clone();
+        lb.macros[0].name = "MAD".into();
+        let mut llong = lbase.clone();
+        llong.macros[0].name = "M".repeat(300);
+        for (name, a, b) in [("same-length-name", &lbase, &lb), ("second-shorter", &llong, &lbase), ("second-longer", &lbase, &llong)] {
+            for (fname, fmt) in FMTS {
+                cx.stats.executions += 1;
+                cx.stats.evaluations += 1;
+                let f = cx.scratch_file(&format!("c18l-seq-{name}.{fname}"));
+                let _ = std::fs::remove_file(&f);
+                let r = guard(|| -> Result<LefLibrary, String> {
+                    fmt.save(a, &f).map_err(|e| format!("save A: {e}"))?;
+                    fmt.save(b, &f).map_err(|e| format!("save B: {e}"))?;
+                    fmt.open::<LefLibrary>(&f).map_err(|e| format!("open: {e}"))
+                });
+                let _ = std::fs::remove_file(&f);
+                let key = format!("q:lef:{name}:{fname}");
+                match r {
+                    Err(p) => cx.fail(&key, "save-sequence-panic", None, || p.short(), || Value::Null),
+                    Ok(Err(e)) => cx.fail(&key, "save-sequence-error", None, || format!("LEF {name}/{fname}: {e}"), || Value::Null),
+                    Ok(Ok(back)) => {
+                        if back != *b {
+                            cx.fail(&key, "save-sequence-stale", None, || format!("LEF {name}/{fname}: after save(A), save(B) to one path, open returns {}", if back == *a { "A" } else { "neither A nor B" }), || Value::Null);
+                        } else {
+                            cx.outcome("identical");
+                        }
+                    }
+                }
+            }
+        }
+        cx.bulk_states(14, 14);
+    }
+
     fn strings_for(tier: Tier, block: usize, nblocks: usize) -> Vec<String> {
         let mut all: Vec<String> = vec![];
         for a in SIGMA {
@@ -442,7 +561,7 @@ impl Driver for C18 {
     fn describe(&self, tier: Tier) -> Describe {
         Describe {
             rule: format!(
-                "[doubles] every binary exponent of the GDSII range (-256..=251) x sign x {} fraction patterns at each of {GDS_F64_SITES} f64 sites (UNITS x2, SREF MAG/ANGLE, AREF ANGLE, TEXT MAG) of a GDSII library holding one element of every kind with every optional field; [strings] every string of length <= {} over a 26-character alphabet special to JSON/YAML (quotes, colon, hash, backslash, space, newline, tab, CR, dash, ?, brackets, &, *, !, |, >, %, @, backtick, ~, comma, e-acute, digit, letter) plus {} whole strings (YAML keywords, numbers, document markers, flow/block indicators, leading/trailing/inner whitespace lines, BOM, NEL, U+2028, NUL, DEL, emoji, combining) at each of {GDS_STRING_SITES} GDSII and {LEF_STRING_SITES} LEF string sites; [decimals] at each of {LEF_DECIMAL_SITES} LEF decimal sites (VERSION, SIZE x / y, ORIGIN, layer WIDTH, RECT and POLYGON coordinates, MANUFACTURINGGRID) every decimal with one of 14 mantissas of 1..29 digits (0, 1, 5, 12345, 2^52+1, 2^53+1, 17/18/20/21 digits, 23 nines, 28 digits, 2^95, 2^96-1) x scale in {{0,1,3,6,12,17,20,28}} x sign; [structure] full GDSII / LEF libraries, repository .gds and .lef resources; [markup] repository .gds resources and the full library through to_markup + from_markup on files. All x {{Json, Yaml}} x {{to_string+from_str, save+open}}. A state is (value, site); non-trivial = not the default value. Oracle: value equality, f64 sites by bits, strings by bytes, GDSII bytes identical.",
+                "[doubles] every binary exponent of the GDSII range (-256..=251) x sign x {} fraction patterns at each of {GDS_F64_SITES} f64 sites (UNITS x2, SREF MAG/ANGLE, AREF ANGLE, TEXT MAG) of a GDSII library holding one element of every kind with every optional field; [strings] every string of length <= {} over a 26-character alphabet special to JSON/YAML (quotes, colon, hash, backslash, space, newline, tab, CR, dash, ?, brackets, &, *, !, |, >, %, @, backtick, ~, comma, e-acute, digit, letter) plus {} whole strings (YAML keywords, numbers, document markers, flow/block indicators, leading/trailing/inner whitespace lines, BOM, NEL, U+2028, NUL, DEL, emoji, combining) at each of {GDS_STRING_SITES} GDSII and {LEF_STRING_SITES} LEF string sites; [decimals] at each of {LEF_DECIMAL_SITES} LEF decimal sites (VERSION, SIZE x / y, ORIGIN, layer WIDTH, RECT and POLYGON coordinates, MANUFACTURINGGRID) every decimal with one of 14 mantissas of 1..29 digits (0, 1, 5, 12345, 2^52+1, 2^53+1, 17/18/20/21 digits, 23 nines, 28 digits, 2^95, 2^96-1) x scale in {{0,1,3,6,12,17,20,28}} x sign; [integers] every integer leaf of the full GDSII library's serde form (coordinates, layers, types, dates, flags, plex, attributes, columns / rows) := each of 16 values (0, +-1, 255, 256, i16 / u16 / i32 limits, 2^24, 2^24+-1, 123456789, 2^30) that fits the field; [save sequences] save(A) then save(B) to the same path then open, for pairs A, B whose markup has the same length / B shorter / B longer (GDSII and LEF, both formats): the copy must be B; [structure] full GDSII / LEF libraries, repository .gds and .lef resources; [markup] repository .gds resources and the full library through to_markup + from_markup on files. All x {{Json, Yaml}} x {{to_string+from_str, save+open}}. A state is (value, site); non-trivial = not the default value. Oracle: value equality, f64 sites by bits, strings by bytes, GDSII bytes identical.",
                 Self::doubles_for(tier, 0).len() / 2,
                 tier.pick(2, 3),
                 whole_strings().len()
@@ -468,6 +587,10 @@ impl Driver for C18 {
         for site in 0..LEF_DECIMAL_SITES {
             v.push(format!("N:{site}"));
         }
+        for b in 0..8 {
+            v.push(format!("I:{b}"));
+        }
+        v.push("Q".into());
         v
     }
     fn run_unit(&self, unit: &str, cx: &mut Cx) {
@@ -531,6 +654,30 @@ impl Driver for C18 {
                 if b == 0 {
                     cx.sample(|| json!({"string": "a: b", "site": "GDSII TEXT string", "also": strs.iter().take(5).collect::<Vec<_>>()}));
                 }
+            }
+            "I" => {
+                let b: usize = parts[1].parse().unwrap();
+                let leaves = gds_int_leaves();
+                let mut n = 0u64;
+                for (k, path) in leaves.iter().enumerate() {
+                    if k % 8 != b {
+                        continue;
+                    }
+                    for x in INT_VALUES {
+                        if let Some(lib) = gds_with_int(path, x) {
+                            cx.stats.executions += 1;
+                            cx.stats.transitions += 1;
+                            n += 1;
+                            self.check_int(&lib, k, path, x, cx);
+                        }
+                    }
+                }
+                cx.bulk_states(n, n);
+                cx.tag("integers");
+            }
+            "Q" => {
+                self.save_sequences(cx);
+                cx.tag("save-sequences");
             }
             "N" => {
                 let site: usize = parts[1].parse().unwrap();
@@ -652,6 +799,14 @@ impl Driver for C18 {
                 set_gds_f64(&mut lib, site, x);
                 self.check_gds(&lib, key, &format!("double {x:e} at f64 site {site}"), |f, _| if f == "json" { Some(F_JSON_FLOAT) } else { None }, cx);
             }
+            "i" if p.len() == 3 => {
+                let (k, x): (usize, i64) = (p[1].parse().unwrap(), p[2].parse().unwrap());
+                let leaves = gds_int_leaves();
+                if let Some(lib) = leaves.get(k).and_then(|path| gds_with_int(path, x)) {
+                    self.check_int(&lib, k, &leaves[k], x, cx);
+                }
+            }
+            "q" => self.save_sequences(cx),
             "n" if p.len() == 3 => {
                 let (site, i): (usize, usize) = (p[1].parse().unwrap(), p[2].parse().unwrap());
                 let d = lef_decimals()[i];
@@ -689,7 +844,7 @@ impl Driver for C18 {
         json!({"case": key})
     }
     fn guards(&self, _tier: Tier, stats: &Stats, _d: u64) -> Result<(), String> {
-        require_tags(stats, &["doubles", "strings", "decimals", "structure", "markup", "gds-resource", "lef-resource"])?;
+        require_tags(stats, &["doubles", "strings", "decimals", "integers", "save-sequences", "structure", "markup", "gds-resource", "lef-resource"])?;
         require_outcomes(stats, &["identical"])
     }
 }
